@@ -101,6 +101,33 @@ Theorem C08_strict_options : forall uri_ok specs od, check_opts uri_ok specs od 
 Proof. exact check_opts_none_in. Qed.
 Print Assumptions C08_strict_options.
 
+(* HELLO / WELCOME: the roles dict is present and non-empty, and every KNOWN feature flag of every role that an
+   accepted message carries is a bool or None (unknown feature names are ignored by the code) *)
+Theorem C08_roles_checked : forall uri_ok cfg od, check_roles uri_ok cfg od = None ->
+  exists rd, dget (s2l "roles") od = Some (VDict rd) /\ rd <> []
+             /\ forall kv, In kv rd -> check_role uri_ok cfg kv = None.
+Proof. exact check_roles_none_inv. Qed.
+Print Assumptions C08_roles_checked.
+
+Theorem C08_role_features : forall uri_ok cfg kv name feats d fd f x,
+  check_role uri_ok cfg kv = None -> fst kv = KS name -> find_role cfg name = Some feats ->
+  snd kv = VDict d -> dget (s2l "features") d = Some (VDict fd) ->
+  In f feats -> dget (s2l f) fd = Some x ->
+  x = VNull \/ exists b, x = VBool b.
+Proof. exact role_features_strict. Qed.
+Print Assumptions C08_role_features.
+
+Example C08_role_features_witness :
+  let hello f := [VInt 1; VStr (s2l "realm1");
+                  VDict [(KS (s2l "roles"), VDict [(KS (s2l "caller"), VDict [(KS (s2l "features"), VDict [(KS (s2l "call_timeout"), f)])])])]] in
+  parse_i Hello (hello (VInt 0)) = Raise ProtocolError
+  /\ parse_i Hello (hello (VStr [])) = Raise ProtocolError
+  /\ parse_i Hello (hello (VList [])) = Raise ProtocolError
+  /\ parse_i Hello (hello (VFloat 0)) = Raise ProtocolError
+  /\ (exists m, parse_i Hello (hello (VBool false)) = Ok m)
+  /\ (exists m, parse_i Hello (hello VNull) = Ok m).
+Proof. repeat split; try (vm_compute; reflexivity); eexists; vm_compute; reflexivity. Qed.
+
 (* Full strength (every present option conforms to the strict reading: session ids in range, also inside
    forward_for entries) is FALSE of the code: *)
 Theorem C08_strict_refuted : forall uri_ok custom_ok,
